@@ -296,6 +296,9 @@ func (t *trzszTransfer) recvPrefixHash(writer fileWriter, srcFile *sourceFile, t
 		}
 
 		step := hash.Step - matchStep
+		if step <= 0 || step > kPrefixHashStep { // the sender hashes at most one block at a time
+			return simpleTrzszError("Invalid hash step: %d", hash.Step)
+		}
 		buffer := make([]byte, step)
 		n, err := io.ReadFull(file, buffer)
 		if err != nil {
